@@ -398,6 +398,7 @@ class Engine:
         self.cur_fn = None
         self.prange_ctx = None
         self.bound_ids = {}
+        self.bound_keep = []       # keeps bound-variable ASTs alive so their ids are never recycled
         self.pending_defs = []
         self.def_instances = {}
 
@@ -1535,6 +1536,53 @@ class Engine:
         c = self.truth(self.ev(s.test, st))
         if isinstance(c, bool):
             return self.exec_block(s.body if c else s.orelse, [st])
+        if self.pure_scalar_branches(s):
+            # if-conversion: both branches only assign scalar expressions -> one path with if-then-else values
+            a, b = st.fork(), st.fork()
+            nc_ = simp(z3.Not(c))
+            base_len = len(st.pc)
+            ra = rb = []
+            if self.feasible(a, c) and self.feasible(b, nc_):
+                a.pc.append(c)
+                b.pc.append(nc_)
+                n_obl = len(self.obls)
+                ra = self.exec_block(s.body, [a])
+                rb = self.exec_block(s.orelse, [b])
+            if len(ra) == 1 and len(rb) == 1 and ra[0].flow is None and rb[0].flow is None \
+                    and all(ra[0].heap[k] is st.heap.get(k) for k in ra[0].heap) and all(rb[0].heap[k] is st.heap.get(k) for k in rb[0].heap):
+                names = sorted(set(ra[0].env) | set(rb[0].env))
+                ok = True
+                merged = {}
+                for nm in names:
+                    va, vb = ra[0].env.get(nm, st.env.get(nm)), rb[0].env.get(nm, st.env.get(nm))
+                    if va is vb:
+                        merged[nm] = va
+                        continue
+                    if va is None or vb is None or isinstance(va, Arr) or isinstance(vb, Arr):
+                        ok = False
+                        break
+                    try:
+                        x, y = self.unify2(self.tosv(va), self.tosv(vb))
+                    except Unsupported:
+                        ok = False
+                        break
+                    mv = SV(z3.If(c, x.t, y.t), x.ty)
+                    if nm in self.spec.name_values:
+                        k_ = fresh(nm, sort_of(mv.ty))
+                        st.pc.append(k_ == mv.t)
+                        mv = SV(k_, mv.ty)
+                    merged[nm] = mv
+                if ok:
+                    # obligations raised inside the branches were recorded with the guarded path conditions;
+                    # facts gathered inside a branch (let-bindings, assumed obligations) are kept under its guard
+                    for f in ra[0].pc[base_len + 1:]:
+                        st.pc.append(z3.Implies(c, f))
+                    for f in rb[0].pc[base_len + 1:]:
+                        st.pc.append(z3.Implies(nc_, f))
+                    st.env.update(merged)
+                    return [st]
+                else:
+                    del self.obls[n_obl:]       # redo the statement by path splitting
         out = []
         a = st.fork()
         if self.feasible(a, c):
@@ -1546,6 +1594,21 @@ class Engine:
             b.pc.append(nc)
             out += self.exec_block(s.orelse, [b])
         return out
+
+    def pure_scalar_branches(self, s):
+        def ok(body):
+            for x in body:
+                if isinstance(x, ast.Assign):
+                    if not all(isinstance(t, ast.Name) for t in x.targets):
+                        return False
+                    if any(isinstance(y, (ast.Call, ast.Subscript)) for y in ast.walk(x.value)):
+                        return False
+                elif isinstance(x, ast.Pass):
+                    continue
+                else:
+                    return False
+            return True
+        return bool(s.body) and ok(s.body) and ok(s.orelse)
 
     def st_Assign(self, s, st):
         v = self.ev(s.value, st)
@@ -1898,14 +1961,11 @@ class GhostCtx:
                         a = SV(I(a), 'int')
                     else:
                         raise ContractError(f'ghost {name}: argument of type {a.ty}, expected {t}')
-                ts.append(a.t)
+                ts.append(simp(a.t))
             app = F(*ts)
             if not eng.mentions_bound(ts):
                 # ground application: add the instance of the definition (sound anywhere: F is a pure function)
                 inst = app == z3.substitute(rhs.t, *zip(vs, ts))
-                key = app.get_id()
-                if key not in eng.def_instances:
-                    eng.def_instances[key] = inst
                 eng.pending_defs.append(inst)
             return SV(app, retty)
         self.fn(name, call)
